@@ -1351,6 +1351,7 @@ func (vc *VC) execNext(fr *frame, st *State, x *ssa.Next) Val {
 	vis := vc.heapGet(st, ri.vis, SArrIB)
 	// a further key exists iff some key of the domain is unvisited; the chosen key is in the domain and unvisited
 	vc.assume(st, p.Implies(ok, p.And(p.Select(dom, k), p.Not(p.Select(vis, k)))))
+	vc.assume(st, p.Implies(ok, p.Ne(ri.m, p.Int(0)))) // ranging over a nil map yields nothing
 	q := p.Var("q$"+x.Name(), SInt)
 	vc.assume(st, p.Implies(p.Not(ok), p.Forall([]*Term{q}, p.Implies(p.Select(dom, q), p.Select(vis, q)))))
 	vc.assume(st, p.Implies(p.Not(ok), p.Ne(ri.m, p.Int(-1))))
